@@ -104,6 +104,11 @@ pub fn take_last_panic() -> Option<(String, String)> {
 	LAST_PANIC.with(|p| p.borrow_mut().take())
 }
 
+/// Restore a panic record (used by cleanup code that may itself catch secondary panics).
+pub fn set_last_panic(v: Option<(String, String)>) {
+	LAST_PANIC.with(|p| *p.borrow_mut() = v);
+}
+
 // ---------------------------------------------------------------------------------------------
 // tiers, args
 // ---------------------------------------------------------------------------------------------
@@ -472,6 +477,18 @@ impl Check {
 		S: Strategy<Value = T> + Clone + Send + Sync + 'static,
 		F: Fn(&T, &mut Ctx) -> CaseResult + Send + Sync + 'static,
 	{
+		self.part_with(spec, move || strategy.clone(), oracle)
+	}
+
+	/// Like [`Check::part`] but takes a factory that builds the strategy inside each worker thread (for
+	/// strategies that are not `Send`/`Sync`, e.g. boxed unions).
+	pub fn part_with<T, S, MK, F>(&mut self, spec: PartSpec, make_strategy: MK, oracle: F)
+	where
+		T: std::fmt::Debug + Clone + Serialize + DeserializeOwned + Send + 'static,
+		S: Strategy<Value = T>,
+		MK: Fn() -> S + Send + Sync + 'static,
+		F: Fn(&T, &mut Ctx) -> CaseResult + Send + Sync + 'static,
+	{
 		if let Some(path) = self.args.replay.clone() {
 			self.replay_part::<T, F>(&spec, &path, &oracle);
 			return;
@@ -495,6 +512,7 @@ impl Check {
 		let t0 = Instant::now();
 		let stop = Arc::new(AtomicBool::new(false));
 		let oracle = Arc::new(oracle);
+		let make_strategy = Arc::new(make_strategy);
 		let known_keys: Arc<Vec<String>> = Arc::new(self.known.iter().filter(|k| k.status == "known").map(|k| k.key.clone()).collect());
 		{
 			let mut cs = CASE_STARTS.lock().unwrap();
@@ -504,7 +522,7 @@ impl Check {
 		let mut handles = vec![];
 		for w in 0..workers {
 			let n = total / workers + if w < total % workers { 1 } else { 0 };
-			let strategy = strategy.clone();
+			let make_strategy = make_strategy.clone();
 			let oracle = oracle.clone();
 			let stop = stop.clone();
 			let known_keys = known_keys.clone();
@@ -514,6 +532,7 @@ impl Check {
 				.stack_size(64 << 20)
 				.name(format!("w{}", w))
 				.spawn(move || {
+					let strategy = make_strategy();
 					let mut stats = PartStats::default();
 					let config = Config {
 						cases: n as u32,
